@@ -15,6 +15,12 @@
 //!        asset B with the identity-carrying asset A as an ingredient (or A itself, `iuri=-`), read
 //!        with `core.decode_identity_assertions=false`, then
 //!        `Reader::post_validate_async(&CawgValidator)`               -> <state> A= D=<results after>
+//!   C33 seq n=<k> 0.refs= … 1.refs= …
+//!        k identity assertions validated one after the other on ONE StatusTracker (hook), every
+//!        ordered combination of {intact-trusted, intact-untrusted, sig-flip, sig-nocerts,
+//!        sig-garbage, ref-tampered, pad-tampered}               -> per assertion: ok|err log=<its slice>
+//!   C33 e2em n=2 0.…(outer manifest's own assertion) 1.…(ingredient's) A= D=
+//!        one `post_validate_async(&CawgValidator)` pass over both -> <state> A= D=<results after>
 //!   C33 remap c=<code>   (model only; compared with the codes the run observed)
 //!
 //! `sig=` / `sigraw=` (how the COSE part ends and which C2PA codes the profile / trust checks log)
@@ -206,6 +212,22 @@ fn uris_str(v: &[HashedUri]) -> String {
 
 fn log_entries(log: &StatusTracker) -> Vec<(char, String)> {
     log.logged_items()
+        .iter()
+        .filter_map(|i| {
+            let c = i.validation_status.as_ref()?.to_string();
+            let k = match i.kind {
+                LogKind::Success => 's',
+                LogKind::Informational => 'i',
+                LogKind::Failure => 'f',
+            };
+            Some((k, c))
+        })
+        .collect()
+}
+
+/// entries (with a status code) logged at tracker index `from` or later
+fn log_entries_from(log: &StatusTracker, from: usize) -> Vec<(char, String)> {
+    log.logged_items()[from..]
         .iter()
         .filter_map(|i| {
             let c = i.validation_status.as_ref()?.to_string();
@@ -502,6 +524,10 @@ pub fn run(run: &mut Run, rng: &mut Rng) {
     let anchors = String::from_utf8(root_a.cert_pem()).unwrap();
     let id_root_pem = String::from_utf8(root_id.cert_pem()).unwrap();
     let holder = Arc::new(holder_for(&ee_id, &root_id));
+    // a second identity credential, from a CA that is never on the CAWG trust list
+    let root_x = pki.root("root-x");
+    let ee_id2 = pki.issue(&root_x, "identity-signer-2", "v3_sign", t0 - day, t0 + 30 * day);
+    let holder2 = Arc::new(holder_for(&ee_id2, &root_x));
 
     // ---- vpc
     let mut seen_codes = std::collections::BTreeSet::<String>::new();
@@ -575,6 +601,105 @@ pub fn run(run: &mut Run, rng: &mut Rng) {
                         } else if !has_cawg_failure(&entries) {
                             let class = if m == Mutn::SigTypeOther { "cawg-sigtype-unknown-unreported" } else { "cawg-change-unreported" };
                             run.fail(i, class, format!("{m:?}: no cawg failure code (ok={ok}, {entries:?})"));
+                        }
+                    }
+                }
+            }
+        }
+    }
+
+    // ---- seq: several identity assertions validated one after the other on ONE status tracker
+    // (as `Reader::post_validate` / `Manifest::from_store` do), every ordered combination of kinds;
+    // each assertion must be reported in its own slice of the tracker whatever came before it
+    {
+        let kinds: [(&str, Mutn, bool); 7] = [
+            ("intact-trusted", Mutn::None, false),
+            ("intact-untrusted", Mutn::None, true),
+            ("sig-flip", Mutn::SigFlip, false),
+            ("sig-nocerts", Mutn::SigNoCerts, false),
+            ("sig-garbage", Mutn::SigGarbage, false),
+            ("ref-tampered", Mutn::RefHash, false),
+            ("pad-tampered", Mutn::Pad1, false),
+        ];
+        let claim: Vec<HashedUri> = ["c2pa.hash.data", "c2pa.actions.v2", "c2pa.thumbnail.claim.jpeg"]
+            .iter()
+            .map(|l| HashedUri::new(format!("self#jumbf=c2pa.assertions/{l}"), None, &rng.bytes(32)))
+            .collect();
+        let pick: Vec<usize> = vec![0, 1, 2];
+        let mut combos: Vec<Vec<usize>> = vec![];
+        for a in 0..kinds.len() {
+            for b in 0..kinds.len() {
+                combos.push(vec![a, b]);
+                if thorough {
+                    for c in 0..kinds.len() {
+                        combos.push(vec![a, b, c]);
+                    }
+                }
+            }
+        }
+        if !thorough {
+            // a few triples: an early failure, then two silent-prone ones
+            combos.push(vec![1, 3, 3]);
+            combos.push(vec![6, 0, 3]);
+            combos.push(vec![3, 1, 4]);
+        }
+        for combo in combos {
+            for trusted in if thorough { vec![Some(true), Some(false), None] } else { vec![Some(true)] } {
+                let mut mades = vec![];
+                for &k in &combo {
+                    let h = if kinds[k].2 { &holder2 } else { &holder };
+                    match make(h, &claim, &pick, kinds[k].1, rng) {
+                        Some(m) => mades.push(m),
+                        None => break,
+                    }
+                }
+                if mades.len() != combo.len() {
+                    continue;
+                }
+                let js = settings_json(&anchors, trusted, &id_root_pem);
+                let mut req = format!("C33 seq n={}", mades.len());
+                for (i, m) in mades.iter().enumerate() {
+                    let f = facts(&m.payload, &m.signature, m.sigtype, trusted, &id_root_pem);
+                    let one = request("x", m, &claim, &f);
+                    for t in one.split(' ').skip(2) {
+                        req.push_str(&format!(" {i}.{t}"));
+                    }
+                }
+                let parts: Vec<_> = mades.iter().map(|m| (m.payload.clone(), m.signature.clone(), m.pad1.clone(), m.pad2.clone())).collect();
+                let claim2 = claim.clone();
+                let out = guarded(move || {
+                    let ctx = Context::new().with_settings(js.as_str()).expect("settings");
+                    let mut log = StatusTracker::default();
+                    let mut slices = vec![];
+                    for (payload, signature, pad1, pad2) in parts {
+                        let ia = c2pa::verif_hooks::c33::assertion_from_parts(payload, signature, pad1, pad2);
+                        let before = log.logged_items().len();
+                        let r = c2pa::verif_hooks::c33::validate_partial_claim(&ia, &claim2, &mut log, &ctx);
+                        let all = log_entries_from(&log, before);
+                        slices.push((r.is_ok(), all));
+                    }
+                    slices
+                });
+                let name = combo.iter().map(|&k| kinds[k].0).collect::<Vec<_>>().join("+");
+                run.count(&format!("seq:len{}", combo.len()));
+                match out {
+                    Err(p) => {
+                        let i = run.case(req, "panic".into());
+                        run.fail(i, "panic", p);
+                    }
+                    Ok(slices) => {
+                        let reply = slices.iter().map(|(ok, e)| format!("{} log={}", if *ok { "ok" } else { "err" }, log_str(e))).collect::<Vec<_>>().join(" / ");
+                        let i = run.case(req, reply);
+                        run.nontrivial(format!("seq:{name}:{trusted:?}"));
+                        for (j, (ok, e)) in slices.iter().enumerate() {
+                            let kind = kinds[combo[j]];
+                            if kind.1 == Mutn::None {
+                                if !ok || !e.iter().any(|x| x.1 == "cawg.identity.well-formed") {
+                                    run.fail(i, "cawg-valid-rejected", format!("pass {name}: unmodified assertion #{j} did not validate: {e:?}"));
+                                }
+                            } else if !has_cawg_failure(e) {
+                                run.fail(i, "cawg-change-unreported-in-pass", format!("pass {name}: assertion #{j} ({}) has no cawg failure code of its own (ok={ok}, {e:?})", kind.0));
+                            }
                         }
                     }
                 }
@@ -762,6 +887,97 @@ pub fn run(run: &mut Run, rng: &mut Rng) {
                         let non_cawg_failure_added = added.iter().any(|(_, e)| e.0 == 'f' && !e.1.starts_with("cawg."));
                         if before_state != "invalid" && state == "invalid" && !non_cawg_failure_added {
                             invalidated(run, i, &format!("{m:?} ({pos}, CawgValidator)"), &cawg);
+                        }
+                    }
+                }
+            }
+        }
+
+        // ---- e2em: asset B carries its OWN identity assertion (second, never-trusted credential)
+        // and has the asset above as an ingredient: one `post_validate_async(&CawgValidator)` pass,
+        // one tracker, B's assertion first, then the ingredient's. Each must be reported in its
+        // own bucket whatever the other one logged.
+        if ingredient_muts.contains(&m) {
+            let outer_muts: Vec<Mutn> = if thorough { vec![Mutn::None, Mutn::SigFlip, Mutn::SigNoCerts, Mutn::Pad1, Mutn::RefHash] } else { vec![Mutn::None, Mutn::SigNoCerts] };
+            for mb in outer_muts {
+                let rec_b = Arc::new(Mutex::new(None));
+                let signer = IdSigner { inner: c2pa_signer(&ee_claim, &root_a), holder: holder2.clone(), mutn: mb, seed: rng.next(), rec: rec_b.clone() };
+                let inner = asset.clone();
+                let src2 = src.clone();
+                let js_b = settings_nodecode(&anchors, Some(true), &id_root_pem);
+                let built = guarded(std::panic::AssertUnwindSafe(move || {
+                    let ctx = Context::new().with_settings(js_b.as_str()).map_err(|e| format!("{e:?}"))?.with_signer(signer);
+                    let mut b = Builder::from_context(ctx).with_definition(definition("c33-outer-id", "image/jpeg").as_str()).map_err(|e| format!("{e:?}"))?;
+                    let ing = serde_json::json!({"title": "inner.jpg", "relationship": "componentOf"}).to_string();
+                    b.add_ingredient_from_stream(ing, "image/jpeg", &mut Cursor::new(inner)).map_err(|e| format!("{e:?}"))?;
+                    let mut out = Cursor::new(Vec::new());
+                    b.save_to_stream("image/jpeg", &mut Cursor::new(src2), &mut out).map_err(|e| format!("{e:?}"))?;
+                    Ok::<_, String>(out.into_inner())
+                }));
+                let outer = match built {
+                    Ok(Ok(b)) => b,
+                    other => {
+                        run.notes.push(format!("e2em {mb:?}+{m:?}: building the outer asset failed: {:?}", other.map(|r| r.map(|_| ()).err())));
+                        continue;
+                    }
+                };
+                let Some((made_b2, claim_b)) = rec_b.lock().unwrap().clone() else {
+                    run.notes.push(format!("e2em {mb:?}+{m:?}: outer dynamic assertion not recorded"));
+                    continue;
+                };
+                let made_b = Made { payload: made_b2.payload.clone(), signature: made_b2.signature.clone(), pad1: made_b2.pad1.clone(), pad2: made_b2.pad2.clone(), sig: made_b2.sig, sigtype: made_b2.sigtype };
+                for trusted in [Some(true), Some(false)] {
+                    let js = settings_nodecode(&anchors, trusted, &id_root_pem);
+                    let outer2 = outer.clone();
+                    let out = guarded(move || {
+                        let ctx = Context::new().with_settings(js.as_str()).expect("settings");
+                        let vctx = Context::new().with_settings(js.as_str()).expect("settings");
+                        let mut r = Reader::from_context(ctx).with_stream("image/jpeg", Cursor::new(outer2)).map_err(|e| format!("{e:?}"))?;
+                        let before = r.validation_results().cloned().unwrap_or_default();
+                        let label = r.active_label().unwrap_or("-").to_string();
+                        let ing = r.active_manifest().and_then(|m| m.ingredients().first()).and_then(|i| i.label()).unwrap_or("unknown").to_string();
+                        let iuri = format!("self#jumbf=/c2pa/{label}/c2pa.assertions/{ing}");
+                        block_on(r.post_validate_async(&CawgValidator::new(&vctx))).map_err(|e| format!("{e:?}"))?;
+                        let after = r.validation_results().cloned().unwrap_or_default();
+                        let state = format!("{:?}", after.validation_state()).to_lowercase();
+                        Ok::<_, String>((before, after, state, iuri))
+                    });
+                    run.count("e2em");
+                    let fb = facts(&made_b.payload, &made_b.signature, made_b.sigtype, trusted, &id_root_pem);
+                    let fa = facts(&made.payload, &made.signature, made.sigtype, trusted, &id_root_pem);
+                    let mut head = "C33 e2em n=2".to_string();
+                    for t in request("x", &made_b, &claim_b, &fb).split(' ').skip(2) {
+                        head.push_str(&format!(" 0.{t}"));
+                    }
+                    head.push_str(" 0.iuri=-");
+                    for t in request("x", &made, &claim_list, &fa).split(' ').skip(2) {
+                        head.push_str(&format!(" 1.{t}"));
+                    }
+                    match out {
+                        Err(p) => {
+                            let i = run.case(head, "panic".into());
+                            run.fail(i, "panic", p);
+                        }
+                        Ok(Err(e)) => {
+                            let i = run.case(head, "read-error".into());
+                            run.fail(i, "read-error", e);
+                        }
+                        Ok(Ok((before, after, state, iuri))) => {
+                            let req = format!("{head} 1.iuri={iuri} {}", results_str(&before));
+                            let i = run.case(req, format!("{state} {}", results_str(&after)));
+                            run.nontrivial(format!("e2em:{mb:?}+{m:?}:{trusted:?}"));
+                            let added = added_entries(&before, &after);
+                            for (bucket, mutn, what) in [(None, mb, "the outer manifest's own assertion"), (Some(iuri.clone()), m, "the ingredient's assertion")] {
+                                let mine: Vec<(char, String)> = added.iter().filter(|x| x.0 == bucket).map(|x| x.1.clone()).filter(|e| e.1.starts_with("cawg.")).collect();
+                                if mutn == Mutn::None {
+                                    if !mine.iter().any(|e| e.1 == "cawg.identity.well-formed") {
+                                        run.fail(i, "cawg-valid-rejected", format!("pass {mb:?}+{m:?}: {what} (unmodified) did not validate: {mine:?}"));
+                                    }
+                                } else if !has_cawg_failure(&mine) {
+                                    let class = if mutn == Mutn::SigTypeOther { "cawg-sigtype-unknown-unreported" } else { "cawg-change-unreported-in-pass" };
+                                    run.fail(i, class, format!("pass {mb:?}+{m:?}: {what} ({mutn:?}) has no cawg failure code recorded for it ({mine:?}; all added: {added:?})"));
+                                }
+                            }
                         }
                     }
                 }
